@@ -4,7 +4,9 @@ import json, os, re, sys, time, hashlib, subprocess
 VERIF = os.path.dirname(os.path.dirname(os.path.abspath(__file__)))
 REPO = os.environ.get('VERIF_REPO', '/repo')
 LIB = os.path.join(REPO, 'lib', 'src')
-EVID = os.path.join(VERIF, 'evidence')
+# VERIF_EVIDENCE_DIR: scratch location used when a check is run against a deliberately broken tree (seeded changes),
+# so that the committed evidence always comes from the unchanged tree
+EVID = os.environ.get('VERIF_EVIDENCE_DIR') or os.path.join(VERIF, 'evidence')
 REPLAY = os.path.join(VERIF, 'replay')
 BUILD = os.path.join(VERIF, 'build')          # assembled Verus files, logs (git-ignored)
 KANI_DIR = os.path.join(VERIF, 'kani')
